@@ -62,6 +62,7 @@ theorem finishInner_nonroot (p : Params K) (h l : Nat) (keys3 : List K) (kids3 :
     (hc : CtxOk p (h + 1) ctx) (setSep lastUp : Option K) (lf inf : Nat) :
     ∃ out, finishInner p l keys3 kids3 ctx setSep lastUp lf inf = some out ∧ out.rootDrop = false ∧
       out.node = .inner l keys3 kids3 ∧ out.leafFree = lf ∧ out.innerFree = inf ∧
+      out.setSep = setSep ∧ out.lastUp = lastUp ∧
       (p.innerMin ≤ keys3.length → out.fix = .none) ∧
       (keys3.length < p.innerMin →
         Applicable p.innerMin (ctx.left.map BNode.slotuse) (ctx.right.map BNode.slotuse)
@@ -75,9 +76,9 @@ theorem finishInner_nonroot (p : Params K) (h l : Nat) (keys3 : List K) (kids3 :
   · simp only [hu, decide_true, ctxOk_not_alone p (h + 1) ctx hc, if_true]
     obtain ⟨f, hf, hap⟩ := ctxOk_decide p (h + 1) ctx hc p.innerMin
     rw [hf]
-    exact ⟨_, rfl, rfl, rfl, rfl, rfl, by intro h'; omega, fun _ => hap⟩
+    exact ⟨_, rfl, rfl, rfl, rfl, rfl, rfl, rfl, by intro h'; omega, fun _ => hap⟩
   · simp only [hu, decide_false]
-    exact ⟨_, rfl, rfl, rfl, rfl, rfl, fun _ => rfl, fun h' => h'.elim⟩
+    exact ⟨_, rfl, rfl, rfl, rfl, rfl, rfl, rfl, fun _ => rfl, fun h' => h'.elim⟩
 
 /-- the whole frame of a non-root inner node, given the contract of the child that was erased from -/
 theorem afterChild_ok (p : Params K) (pv : p.Valid) (tg : Target K) (h l : Nat) (keys : List K)
@@ -95,7 +96,7 @@ theorem afterChild_ok (p : Params K) (pv : p.Valid) (tg : Target K) (h l : Nat) 
   obtain ⟨hlt, hget⟩ := List.getElem?_eq_some_iff.mp hchild
   obtain ⟨keys3, kids3, lf, inf, hac, hro, _⟩ := afterChild_pre p pv tg h l keys kids ctx cctx slot r hl hk
     hslot hkids child hchild hc1 hc2 hc3 hc4 hr
-  obtain ⟨out, hfo, ho1, ho2, ho3, ho4, ho5, ho6⟩ := finishInner_nonroot p h l keys3 kids3 ctx hc
+  obtain ⟨out, hfo, ho1, ho2, ho3, ho4, _, _, ho5, ho6⟩ := finishInner_nonroot p h l keys3 kids3 ctx hc
     (reportSep ctx.sepAbove r.lastUp) (reportUp ctx.sepAbove r.lastUp)
     (r.leafFree + lf) (r.innerFree + inf)
   refine ⟨out, by rw [hac, hfo], ?_⟩
@@ -302,12 +303,14 @@ theorem eraseTop_ok (p : Params K) (pv : p.Valid) (tg : Target K) (t : Tree K V)
         intro slot hslot hhit
         have hlen : (es.eraseIdx slot).length = es.length - 1 := List.length_eraseIdx_of_lt hslot
         unfold eraseInLeaf
-        simp only [Option.isNone_none, Bool.true_and, Bool.false_eq_true, if_false]
-        have hupd : (if slot = (es.eraseIdx slot).length then some ((none : Option K), (es.eraseIdx slot).getLast?.map Prod.fst)
-            else some (none, none)) = some (none, if slot = (es.eraseIdx slot).length then (es.eraseIdx slot).getLast?.map Prod.fst else none) := by
-          split <;> rfl
-        rw [hupd]
-        simp only
+        have hupd : ∃ u2, leafReport (K := K) false (slot == (es.eraseIdx slot).length)
+            ((es.eraseIdx slot).getLast?.map Prod.fst) = some (none, u2) := by
+          unfold leafReport
+          cases (slot == (es.eraseIdx slot).length) <;> exact ⟨_, rfl⟩
+        obtain ⟨u2, hu2⟩ := hupd
+        simp only [hu2]
+        unfold finishLeaf
+        simp only [Option.isNone_none, Bool.true_and]
         by_cases hemp : (es.eraseIdx slot).length ≥ 1
         · have hcond : ((es.eraseIdx slot).length < p.leafMin && !decide ((es.eraseIdx slot).length ≥ 1)) = false := by
             simp [hemp]
